@@ -645,12 +645,17 @@ def detry(t):
         # the Ok payload read after a test of the discriminant: the success value, as with `?`
         return success_payload(detry(t[1]))
     if t[0] == 'vfield' and t[2] == 'Some' and t[3] == '0':
-        # Some payload of `result.ok()` (or of a merge of that with `?` residuals): the success value of the result
-        inner = success_payload(detry(t[1]))
-        k = m_call(inner, name='ok', self_suffix='Result') if isinstance(inner, tuple) else None
-        if k is not None and len(k) == 1 and strip_generics(inner[1]) == 'core::result::Result::ok':
-            return k[0]
-        return ('vfield', inner, t[2], t[3]) if inner is not t[1] else tuple(detry(x) if isinstance(x, tuple) else x for x in t)
+        # Some payload of `result.ok()` (possibly merged with the residuals of failed `?`s): the success value of the result
+        base = detry(t[1])
+        alts = phi_alts(base)
+        live = [a for a in alts if m_call(a, name='from_residual') is None]
+        if live and all(isinstance(a, tuple) and a and a[0] == 'call' and strip_generics(a[1]) == 'core::result::Result::ok' and len(a[2]) == 1 for a in live):
+            pay = []
+            for a in live:
+                if a[2][0] not in pay:
+                    pay.append(a[2][0])
+            return pay[0] if len(pay) == 1 else ('phi', tuple(sorted(pay, key=repr)))
+        return ('vfield', base, t[2], t[3])
     return tuple(detry(x) if isinstance(x, tuple) else x for x in t)
 
 
